@@ -387,6 +387,91 @@ theorem execS_ite (fuel : Nat) (c : X.Expr) (t e : X.Stmt) (σ : X.St) (hpc : pu
               simpa [Nat.add_assoc] using this)
           exact hpost.pre (st1.trans sL)
 
+omit wf in
+theorem optStmt_while (ρ : String → Option Word) (c : X.Expr) (b : X.Stmt) :
+    optStmt (annotS ρ (.while c b)) = .while (optExpr (annotate ρ c)) (optStmt (annotS ρ b)) := by
+  simp [annotS, optStmt]
+
+theorem execS_while (fuel : Nat) (c : X.Expr) (body : X.Stmt) (σ : X.St) (hpc : pureE c = true)
+    (ihb : ∀ s, ExecS K exitJ (optStmt (annotS K.ρ body)) s (X.exec fuel K.xc body s))
+    (ihw : ∀ s, ExecS K exitJ (optStmt (annotS K.ρ (.while c body))) s (X.exec fuel K.xc (.while c body) s)) :
+    ExecS K exitJ (optStmt (annotS K.ρ (.while c body))) σ (X.exec (fuel + 1) K.xc (.while c body) σ) := by
+  intro gs code gs' i a b mem hg hat hr hsz hnl hci
+  have hg0 := hg
+  rw [optStmt_while] at hg
+  cases ht : X.tick K.xc σ with
+  | none => unfold X.exec; rw [ht]; trivial
+  | some st =>
+    rw [exec_while fuel K.xc c body σ st ht]
+    have hs := tick_same _ _ _ ht
+    cases hev : asBool "condition of while" (X.eval fuel K.xc c st) with
+    | undef w => trivial
+    | exit cd s => exact absurd hev (asBool_pure_no_exit K.xc _ fuel c st cd s hpc)
+    | ok w s =>
+      simp only
+      obtain ⟨hev', hbw⟩ := asBool_ok _ _ _ _ hev
+      have hs2 := eval_pure K.xc _ _ _ _ _ hpc hev'
+      have hio : s.io = σ.io := by rw [hs2.2.2.2.1, hs.2.2.2.1]
+      have hC := expr_pure_correct K wf.toWF fuel c st w s hpc hev'
+      have hrst := hr.same hs
+      obtain ⟨cc, gs1, cb, h1, h2, hcode⟩ := genStmt_while_inv _ _ _ _ _ _ hg
+      have e2 := genStmt_eff _ _ _ _ _ h2
+      have e1 := genExpr_eff _ _ _ _ _ _ h1
+      have hat0 := hat
+      rw [hcode] at hat
+      simp only [low_append, List.append_assoc] at hat
+      have hlb : K.low [iLabel (lab gs.labelCount)] = [.label .plain (lab gs.labelCount)] := rfl
+      have hbz : K.low [lBRZ (lab (gs.labelCount + 1))] = [.ref 0xA (lab (gs.labelCount + 1)) true] := rfl
+      have hbe : K.low [lBR (lab gs.labelCount), iLabel (lab (gs.labelCount + 1))]
+          = [.ref 0x9 (lab gs.labelCount) true, .label .plain (lab (gs.labelCount + 1))] := rfl
+      rw [hlb, hbz, hbe] at hat
+      have hbegin := hat.head
+      have hbrz := hat.right.right.head
+      have hbr := hat.right.right.right.right.get 0 _ rfl
+      have hend := hat.right.right.right.right.get 1 _ rfl
+      simp only [List.length_cons, List.length_nil, Nat.add_zero] at hbrz hbr hend
+      have hlen : (K.low code).length = 1 + ((K.low cc).length + (1 + ((K.low cb).length + 2))) := by
+        rw [hcode]; simp only [low_append, List.append_assoc, hlb, hbz, hbe, List.length_append, List.length_cons, List.length_nil]
+      have sBegin := step_label K _ _ _ hbegin a b mem σ.io
+      obtain ⟨b1, mem1, st1, rep1⟩ := exec_cond_brz K wf.toWF _ w st hC _ cc gs1 (i + 1) a b mem σ.io _ _ _ h1
+        (by simpa using hat.right.left) (by simpa using hbrz) hend hrst (by have := e2.2.1; omega) hnl (hci.of_eff e2)
+      have rep1s := rep1.same hs2
+      by_cases hw0 : (w == 0) = true
+      · have hw : w = 0 := by simpa using hw0
+        simp only [hw0, if_true]
+        rw [if_pos hw] at st1
+        refine ⟨w, b1, mem1, ?_, rep1s⟩
+        rw [hio]
+        refine sBegin.trans (st1.trans ?_)
+        have := step_label K _ _ _ hend w b1 mem1 σ.io
+        rw [hlen]
+        simpa [Nat.add_assoc] using this
+      · have hw : ¬ w = 0 := by simpa using hw0
+        simp only [hw0, Bool.false_eq_true, if_false]
+        rw [if_neg hw] at st1
+        have hB := ihb s gs1 cb gs' (i + 1 + (K.low cc).length + 1) w b1 mem1 h2
+          (by simpa [Nat.add_assoc] using hat.right.right.right.left) rep1s hsz
+          (by have := e1.1; simp only at this; omega) hci
+        rw [hio] at hB
+        have hpre := sBegin.trans st1
+        cases hxb : X.exec fuel K.xc body s with
+        | undef w' => trivial
+        | exit cd s' =>
+          rw [hxb] at hB
+          exact Out.pre (r := .exit cd s') hpre hB
+        | ok fl s' =>
+          cases fl with
+          | ret w' => trivial
+          | normal =>
+            rw [hxb] at hB
+            simp only
+            obtain ⟨a', b', mem', stB, repB⟩ := hB
+            have sBack := step_br K wf.toWF _ _ _ _ hbr hbegin a' b' mem' s'.io
+            have hW := ihw s' gs code gs' i a' b' mem' hg0 hat0 repB hsz hnl hci
+            refine Out.pre ?_ hW
+            refine hpre.trans (stB.trans ?_)
+            simpa [Nat.add_assoc] using sBack
+
 end
 
 end Hex.C01s
